@@ -29,6 +29,7 @@ def gen_cases(tier, rng):
         for ts in (0, 16777215):
             yield Case("c01.conv 18 %d %s" % (ts, hex_tok(mp)), cls="conv-meta")
     yield from fanout.gen_histories(tier, rng)
+    yield from fanout.gen_wait_histories(tier, rng, counts=(2,))
 
 
 def split_impl(c, out):
@@ -154,12 +155,29 @@ def check_stream(cfg, msgs, seg, k, a, b, cid):
         by_epoch.setdefault(msgs[i][3], []).append(i)
     for ep, lst in by_epoch.items():
         got = [i for i in got_live if msgs[i][3] == ep]
-        if not got:
-            continue
-        s = lst.index(got[0])
-        if got != lst[s:s + len(got)]:
-            return "consumer %s skipped a message inside its run (epoch %s): got %s of %s" % (cid, ep, got[:20], lst[:20])
-        missing = lst[s + len(got):]
+        if k == "p":
+            if not got:
+                continue
+            s = lst.index(got[0])
+            want = lst[s:]
+        else:
+            # a player may be made to wait for a key frame: until its first FRAME it receives exactly the
+            # metadata / sequence-header messages published meanwhile (they are no frames and must not be
+            # withheld), from that frame on every message
+            frames = [i for i in got if not _is_header(msgs[i])]
+            if frames:
+                s = lst.index(frames[0])
+                want = [i for i in lst[:s] if _is_header(msgs[i])] + lst[s:]
+            else:
+                want = [i for i in lst if _is_header(msgs[i])]
+                if got != want[:len(got)] and got == lst[:len(got)]:
+                    want = lst     # admitted from its first message on, the rest is still in the merge buffer
+        if got != want[:len(got)]:
+            return "consumer %s skipped a message inside its run (epoch %s): got %s, due %s of %s" % (cid, ep, got[:20], want[:20], lst[:20])
+        missing = want[len(got):]
+        if missing and k != "p" and not any(not _is_header(msgs[i]) for i in got):
+            # nothing but headers received so far: what is missing may sit in the merge buffer behind other messages
+            missing = lst[(lst.index(got[-1]) + 1) if got else 0:]
         if missing:
             if k == "r" and cfg.get("mw", 0) > 0:
                 size = sum(fanout.chunk_len(len(_wo(msgs[i])), msgs[i][1], cfg.get("extfix", 0)) for i in missing)
@@ -168,6 +186,11 @@ def check_stream(cfg, msgs, seg, k, a, b, cid):
                 return "RTMP consumer %s trails by %d bytes >= merge-write size %d" % (cid, size, cfg["mw"])
             return "consumer %s's run ended before it or the publisher left: missing %s" % (cid, missing[:12])
     return None
+
+
+def _is_header(m):
+    """metadata, AVC/HEVC sequence header or AAC sequence header (FLV / enhanced-RTMP tag layout)"""
+    return fanout.classify_payload(m[0], m[2]) in ("meta", "vsh", "ash")
 
 
 def _wo(m):
